@@ -618,11 +618,11 @@ func c16RunScript(r *verifkit.Run, sc c16Script, desc string, idents []*identity
 
 func c16ChannelWorkload(r *verifkit.Run, repeats int, stamps bool) {
 	r.SetRule("scenario = 1-3 libp2p channel structs joined by a fake topic (records each published protobuf, delivers it 1-3 times, partly from fresh goroutines, to every channel's processContainerMessage) with hand-fed retransmission tickers, 2-6 sender goroutines (2-6 Sends each, standard or backoff strategy, some send contexts cancelled early), 1-5 handlers registered before or during the traffic (some with an already cancelled context), cancelled by a sender goroutine at a PRNG position which then immediately sends 1-3 more messages, ticks injected by the senders and after the traffic; oracle: per handler each (sender, seqno) and each Send at most once, one seqno per Send and per-channel seqnos distinct (fake publisher), nothing sent after cancel() returned reaches that handler. non-trivial = a retransmission of an already delivered message was observed, or a handler was cancelled while traffic continued")
-	n := r.N(150, 6000)
+	n := r.N(150, 15000)
 	if !stamps {
 		// the race build spends most of its time in secp256k1 arithmetic
 		// (identity decoding on every delivery): fewer scenarios
-		n = r.N(60, 600)
+		n = r.N(60, 1500)
 	}
 	var keys []*identity
 	for i := 0; i < 3; i++ {
